@@ -155,4 +155,189 @@ case: (ltnP k j) => kj.
   rewrite /g2 /= nl; last by lia.
   by have -> : (k + 1 + (i - k - 1) = i)%N by lia.
 Qed.
+
+Lemma combineE A B (x : seq A) (y : seq B) : List.combine x y = zip x y.
+Proof. by elim: x y => [|a x IH] [|b y] //=; rewrite IH. Qed.
+
+(* positions of columns k and k+1 below the 2x2 block, in the order of the loop *)
+Definition cpos2 (n k : nat) : seq (nat * nat) := flatten [seq [:: ((k + 2 + t)%N, k); ((k + 2 + t)%N, (k + 1)%N)] | t <- iota 0 (n - k - 2)].
+Lemma mem_cpos2 n k i j : ((i, j) \in cpos2 n k) = ((j == k) || (j == k + 1)%N) && (k + 1 < i < n)%N.
+Proof.
+apply/flattenP/idP => [[L /mapP[t]]|/andP[jk /andP[ki i_n]]].
+- rewrite mem_iota add0n => /andP[_ tl] ->; rewrite !inE => /orP[] /eqP[-> ->]; rewrite eqxx ?orbT /=; lia.
+- exists [:: ((k + 2 + (i - k - 2))%N, k); ((k + 2 + (i - k - 2))%N, (k + 1)%N)].
+    by apply/mapP; exists (i - k - 2)%N => //; rewrite mem_iota; lia.
+  have -> : (k + 2 + (i - k - 2) = i)%N by lia.
+  by rewrite !inE; case/orP: jk => /eqP ->; rewrite eqxx ?orbT.
+Qed.
+Lemma uniq_cpos2 n k : uniq (cpos2 n k).
+Proof.
+rewrite /cpos2.
+elim: (iota 0 (n - k - 2)) (iota_uniq 0 (n - k - 2)) => [|t L IH] //= /andP[tL uL].
+rewrite IH // andbT !inE negb_or.
+have nin j0 : (k + 2 + t, j0)%N \notin flatten [seq [:: ((k + 2 + t0)%N, k); ((k + 2 + t0)%N, (k + 1)%N)] | t0 <- L].
+  apply/negP => /flattenP[L' /mapP[t' t'L ->]]; rewrite !inE => /orP[] /eqP[] /eqP; rewrite eqn_add2l => /eqP e _.
+  - by rewrite e t'L in tL.
+  - by rewrite e t'L in tL.
+rewrite !nin !andbT; apply/eqP => -[]; lia.
+Qed.
+
+(* gaussian_elimination_2x2 at step k with a nonsingular 2x2 pivot block E = [e11 e21; e21 e22]: with (x1_i, x2_i) = solve_2x2 E (a_ik, a_i,k+1)
+   (the model inlines exactly solve_2x2's two branches) the trailing triangle receives a_ij - (x1_i a_jk + x2_i a_j,k+1), the columns k, k+1 below the
+   block receive x1_i, x2_i, and NOTHING else is touched - for every scalar instance *)
+Theorem elim_2x2_spec n P k : wf n P -> (k + 1 < n)%N ->
+  let e11 := pget P k k in let e21 := pget P (k + 1)%N k in let e22 := pget P (k + 1)%N (k + 1)%N in
+  Ops.eqb o (Ops.sub o (Ops.mul o e11 e22) (Ops.mul o e21 e21)) (zero o) = false ->
+  let X i := solve_2x2 o e11 e21 e22 (pget P i k) (pget P i (k + 1)%N) in
+  let '(P', inf) := elim_2x2 o n P k in
+  [/\ inf = 0%N, wf n P' & forall i j, (j <= i < n)%N ->
+     pget P' i j = if (k + 1 < j)%N then Ops.sub o (pget P i j) (Ops.add o (Ops.mul o (X i).1 (pget P j k)) (Ops.mul o (X i).2 (pget P j (k + 1)%N)))
+                   else if (k + 1 < i)%N && (j == k) then (X i).1
+                   else if (k + 1 < i)%N && (j == k + 1)%N then (X i).2 else pget P i j].
+Proof.
+move=> w kn e11 e21 e22 nz X; rewrite /elim_2x2 -/e11 -/e21 -/e22 nz.
+set ldim := (n - k - 2)%coq_nat.
+set c1 := List.map (fun t => BK.pget o P (k + 2 + t)%coq_nat k) _; set c2 := List.map (fun t => BK.pget o P (k + 2 + t)%coq_nat (k + 1)%coq_nat) _.
+set XX := (if Ops.leb o _ _ then _ else _).
+have n1 t : (t < n - k - 2)%N -> nth (zero o) c1 t = pget P (k + 2 + t)%N k.
+  by move=> tl; rewrite /c1 mapE seqE (nth_map 0%N) ?size_iota // nth_iota.
+have n2 t : (t < n - k - 2)%N -> nth (zero o) c2 t = pget P (k + 2 + t)%N (k + 1)%N.
+  by move=> tl; rewrite /c2 mapE seqE (nth_map 0%N) ?size_iota // nth_iota.
+have sc1 : size c1 = (n - k - 2)%N by rewrite /c1 mapE size_map seqE size_iota.
+have sc2 : size c2 = (n - k - 2)%N by rewrite /c2 mapE size_map seqE size_iota.
+have nX t : (t < n - k - 2)%N -> (nth (zero o) XX.1 t, nth (zero o) XX.2 t) = X (k + 2 + t)%N.
+  move=> tl; rewrite /XX /X /solve_2x2 -(n1 t tl) -(n2 t tl); case: ifP => _ /=.
+  - set X1 := List.map _ (List.combine c1 c2).
+    have s1 : size X1 = (n - k - 2)%N by rewrite /X1 mapE size_map combineE size_zip sc1 sc2 minnn.
+    have e1 : nth (zero o) X1 t = Ops.div o (Ops.sub o (nth (zero o) c2 t) (Ops.mul o (Ops.div o e21 e11) (nth (zero o) c1 t))) (Ops.sub o e22 (Ops.mul o (Ops.div o e21 e11) e21)).
+      by rewrite /X1 mapE combineE (nth_map (zero o, zero o)) ?size_zip ?sc1 ?sc2 ?minnn // nth_zip ?sc1 ?sc2.
+    by rewrite mapE combineE (nth_map (zero o, zero o)) ?size_zip ?sc1 ?s1 ?minnn // nth_zip ?sc1 ?s1 //= e1.
+  - set X1 := List.map _ (List.combine c1 c2).
+    have s1 : size X1 = (n - k - 2)%N by rewrite /X1 mapE size_map combineE size_zip sc1 sc2 minnn.
+    have e1 : nth (zero o) X1 t = Ops.div o (Ops.sub o (nth (zero o) c1 t) (Ops.mul o (Ops.div o e11 e21) (nth (zero o) c2 t))) (Ops.sub o e21 (Ops.mul o (Ops.div o e11 e21) e22)).
+      by rewrite /X1 mapE combineE (nth_map (zero o, zero o)) ?size_zip ?sc1 ?sc2 ?minnn // nth_zip ?sc1 ?sc2.
+    by rewrite mapE combineE (nth_map (zero o, zero o)) ?size_zip ?sc2 ?s1 ?minnn // nth_zip ?sc2 ?s1 //= e1.
+case: XX nX => X0 X1 /= nX.
+pose g1 (p : nat * nat) (old : T o) := Ops.sub o old (Ops.add o (Ops.mul o (nth (zero o) X0 (p.1 - k - 2)) (nth (zero o) c1 (p.2 - k - 2)))
+                                                                  (Ops.mul o (nth (zero o) X1 (p.1 - k - 2)) (nth (zero o) c2 (p.2 - k - 2)))).
+pose g2 (p : nat * nat) (old : T o) := if p.2 == k then nth (zero o) X0 (p.1 - k - 2) else nth (zero o) X1 (p.1 - k - 2).
+set P1 := List.fold_left _ (List.seq 0 ldim) P.
+have eP1 : P1 = List.fold_left (fun P p => pset P p.1 p.2 (g1 p (pget P p.1 p.2))) (upd_pos n (k + 1)) P.
+  rewrite /P1 /upd_pos fold_left_flatten fold_left_map seqE.
+  have -> : (n - (k + 1) - 1 = n - k - 2)%N by lia.
+  apply: fold_left_ext_in => Q j; rewrite mem_iota add0n => /andP[_ jl].
+  rewrite fold_left_map seqE.
+  have -> : (n - k - 2 - j = ldim - j)%N by [].
+  apply: fold_left_ext_in => Q' t _.
+  rewrite /g1 /= !nthE.
+  have -> : (j + (k + 1) + 1 = j + k + 2)%N by lia.
+  have -> : (j + k + 2 - k - 2 = j)%N by lia.
+  have -> : (j + k + 2 + t - k - 2 = j + t)%N by lia.
+  by [].
+have r1 : forall p, p \in upd_pos n (k + 1) -> (p.2 <= p.1 < n)%N.
+  by case=> a b; rewrite mem_upd_pos /= => /andP[/andP[_ ->] ->].
+have [w1 h1] := fold_updates g1 w (uniq_upd_pos n (k + 1)) r1; rewrite -eP1 in w1 h1.
+have eP2 : List.fold_left (fun P t => pset (pset P (k + 2 + t)%coq_nat k (List.nth t X0 (zero o))) (k + 2 + t)%coq_nat (k + 1)%coq_nat (List.nth t X1 (zero o))) (List.seq 0 ldim) P1 =
+           List.fold_left (fun P p => pset P p.1 p.2 (g2 p (pget P p.1 p.2))) (cpos2 n k) P1.
+  rewrite /cpos2 fold_left_flatten fold_left_map seqE; apply: fold_left_ext_in => Q t _.
+  rewrite /g2 /= !nthE eqxx.
+  have -> : (k + 1 == k)%N = false by lia.
+  by have -> : (k + 2 + t - k - 2 = t)%N by lia.
+have r2 : forall p, p \in cpos2 n k -> (p.2 <= p.1 < n)%N.
+  by case=> a b; rewrite mem_cpos2 /=; lia.
+have [w2 h2] := fold_updates g2 w1 (uniq_cpos2 n k) r2.
+rewrite eP2; split=> // i j ij.
+rewrite h2 // mem_cpos2 h1 // mem_upd_pos.
+move: ij => /andP[ji i_n]; rewrite i_n !andbT ji andbT.
+case: (ltnP (k + 1) j) => kj.
+- have -> : (j == k) = false by lia.
+  have -> : (j == k + 1)%N = false by lia.
+  have il : (i - k - 2 < n - k - 2)%N by lia.
+  have jl : (j - k - 2 < n - k - 2)%N by lia.
+  have := nX _ il; have -> : (k + 2 + (i - k - 2) = i)%N by lia.
+  move=> <- /=; rewrite /g1 /= n1 // n2 //.
+  by have -> : (k + 2 + (j - k - 2) = j)%N by lia.
+- case: (ltnP (k + 1) i) => ki /=; last by rewrite andbF.
+  have il : (i - k - 2 < n - k - 2)%N by lia.
+  have := nX _ il; have -> : (k + 2 + (i - k - 2) = i)%N by lia.
+  move=> <- /=; rewrite andbT /g2 /=.
+  case: (j =P k) => [//|nk] /=.
+  by case: (j =P (k + 1)%N).
+Qed.
 End E.
+
+(* in exact arithmetic the step IS one step of the L D L^T factorization: with d = a_kk, l_i = a'_ik the stored multipliers and S = the stored
+   trailing triangle,  a_ij = S_ij + l_i d l_j  (k < j <= i),  a_ik = l_i d,  and the pivot entry is left in place *)
+From mathcomp Require Import all_algebra.
+From mathcomp Require Import ring.
+Section Rec.
+Variable F : rcfType.
+Import GRing.Theory.
+Local Open Scope ring_scope.
+Theorem elim_1x1_reconstruct n (P : list (list F)) k : wf (o:=OpsF F) n P -> (k < n)%N -> BK.pget (OpsF F) P k k != 0 ->
+  let d := BK.pget (OpsF F) P k k in
+  let P' := (elim_1x1 (OpsF F) n P k).1 in
+  [/\ BK.pget (OpsF F) P' k k = d,
+      forall i, (k < i < n)%N -> BK.pget (OpsF F) P i k = BK.pget (OpsF F) P' i k * d &
+      forall i j, (k < j)%N -> (j <= i < n)%N -> BK.pget (OpsF F) P i j = BK.pget (OpsF F) P' i j + BK.pget (OpsF F) P' i k * d * BK.pget (OpsF F) P' j k].
+Proof.
+move=> w kn dn /=.
+have nz : Ops.eqb (OpsF F) (BK.pget (OpsF F) P k k) (zero (OpsF F)) = false by apply/negbTE.
+have := elim_1x1_spec w kn nz; case: (elim_1x1 (OpsF F) n P k) => P' inf /= [_ w' sp].
+split.
+- rewrite sp; last by rewrite leqnn.
+  by rewrite ltnn eqxx andbF.
+- move=> i ki; rewrite sp; last by lia.
+  have -> : (k < i)%N by lia.
+  by rewrite ltnn eqxx /= divfK.
+- move=> i j kj ji.
+  have ki : (k < i)%N by lia.
+  rewrite sp // kj (sp i k); last by lia.
+  rewrite ltnn eqxx ki /= (sp j k); last by lia.
+  rewrite ltnn eqxx kj /=.
+  by field.
+Qed.
+End Rec.
+
+From SV Require Import BKPf.
+Section Rec2.
+Variable F : rcfType.
+Import GRing.Theory.
+Local Open Scope ring_scope.
+Notation pg := (BK.pget (OpsF F)).
+(* the 2x2 step in exact arithmetic: with E the pivot block and l_i = (a'_ik, a'_i,k+1) the stored multipliers,
+   (a_ik, a_i,k+1) = E l_i  and  a_ij = S_ij + l_i^T E l_j: one block step of the L D L^T factorization; the block itself stays in place *)
+Theorem elim_2x2_reconstruct n (P : list (list F)) k : wf (o:=OpsF F) n P -> (k + 1 < n)%N ->
+  let e11 := pg P k k in let e21 := pg P (k + 1)%N k in let e22 := pg P (k + 1)%N (k + 1)%N in
+  e11 * e22 - e21 * e21 != 0 ->
+  let P' := (elim_2x2 (OpsF F) n P k).1 in
+  [/\ pg P' k k = e11 /\ pg P' (k + 1)%N k = e21 /\ pg P' (k + 1)%N (k + 1)%N = e22,
+      forall i, (k + 1 < i < n)%N -> pg P i k = e11 * pg P' i k + e21 * pg P' i (k + 1)%N /\ pg P i (k + 1)%N = e21 * pg P' i k + e22 * pg P' i (k + 1)%N &
+      forall i j, (k + 1 < j)%N -> (j <= i < n)%N ->
+        pg P i j = pg P' i j + (pg P' i k * (e11 * pg P' j k + e21 * pg P' j (k + 1)%N) + pg P' i (k + 1)%N * (e21 * pg P' j k + e22 * pg P' j (k + 1)%N))].
+Proof.
+move=> w kn e11 e21 e22 dn /=.
+have nz : Ops.eqb (OpsF F) (Ops.sub (OpsF F) (Ops.mul (OpsF F) e11 e22) (Ops.mul (OpsF F) e21 e21)) (zero (OpsF F)) = false by apply/negbTE.
+have := elim_2x2_spec w kn nz; rewrite -/e11 -/e21 -/e22.
+case: (elim_2x2 (OpsF F) n P k) => P' inf /= [_ w' sp].
+have X i : let x := solve_2x2 (OpsF F) e11 e21 e22 (pg P i k) (pg P i (k + 1)%N) in e11 * x.1 + e21 * x.2 = pg P i k /\ e21 * x.1 + e22 * x.2 = pg P i (k + 1)%N.
+  by have := @solve_2x2_spec F 0 e11 e21 e22 (pg P i k) (pg P i (k + 1)%N) dn; case: (solve_2x2 _ _ _ _ _ _).
+have col i : (k + 1 < i < n)%N -> pg P' i k = (solve_2x2 (OpsF F) e11 e21 e22 (pg P i k) (pg P i (k + 1)%N)).1 /\ pg P' i (k + 1)%N = (solve_2x2 (OpsF F) e11 e21 e22 (pg P i k) (pg P i (k + 1)%N)).2.
+  move=> /andP[ki i_n]; rewrite !sp; [|lia|lia].
+  have -> : (k + 1 < k)%N = false by lia.
+  rewrite ltnn ki eqxx /=.
+  have -> : ((k + 1)%N == k) = false by lia.
+  by rewrite eqxx.
+split.
+- rewrite !sp; [|lia|lia|lia].
+  have -> : (k + 1 < k)%N = false by lia.
+  by rewrite !ltnn /=.
+- move=> i ki; have [-> ->] := col i ki; have [a b] := X i; by rewrite a b.
+- move=> i j kj ji.
+  have ki : (k + 1 < i < n)%N by lia.
+  have kj' : (k + 1 < j < n)%N by lia.
+  have [-> ->] := col i ki; have [-> ->] := col j kj'.
+  have [a b] := X j; rewrite a b sp // kj /=.
+  by ring.
+Qed.
+End Rec2.
